@@ -110,6 +110,7 @@ pub uninterp spec fn dur_nanos(d: core::time::Duration) -> u32;
     u.raw('impl TimeDelta {')
     for n in ['try_seconds', 'checked_add', 'checked_sub', 'try_days', 'num_days', 'num_seconds', 'subsec_nanos', 'new', 'neg', 'seconds', 'days', 'from_std']:
         u.stub(FTD, n, 'impl TimeDelta {', cid='TimeDelta::' + n)
+    u.stub_all(FTD, 'impl TimeDelta {', 'TimeDelta')
     u.raw('}\nimpl NaiveDate {')
     # every NaiveDate function of the contract table that date-time code may call (so that an edited body calling another
     # of them still type-checks and is decided by the proof instead of becoming a tool error)
